@@ -1,4 +1,118 @@
-import Blf.FileSeq
-/-! # C04 (theorems under construction; the executable model `Blf.FileSeq` is tied to the code by the `file` protocol) -/
+import Blf.FileRoundTrip
+/-!
+# C04 — Finished files decode with an independent implementation of the container format
+
+The container format written out byte by byte (`specContainer`, independent of the generated programs):
+signature `LOBJ`, header size 16, header version 1, object size = 32 + stored bytes, object type 10, compression method
+(0 = none, 2 = zlib), two reserved fields, uncompressed size, a reserved field, the stored bytes, and `objectSize mod 4`
+padding bytes.  Proved for every object list, level, container size, restore-point setting:
+
+* `C04_file_layout`: the finished file is the 144-byte statistics block followed only by such containers;
+* `C04_payload_is_stream`: the concatenation of the containers' payloads is exactly the concatenation of the objects'
+  encodings in the order written — independent of level and container size;
+* `C04_container_sizes`: no payload is larger than the configured container size, and every payload but the last (and the
+  restore-point trailer) has exactly that size;
+* `C04_stored_inflates`: what is stored inflates to exactly the declared uncompressed size (given `ZRT`), or is the payload
+  itself at level 0.
+
+The independent *decoder* itself (Python, `spec/blfparse.py`) is run on every file the real library writes (correspondence).
+-/
 namespace Blf.Props
+open Blf Blf.FileSeq Blf.FileRound Blf.ContainerRound Blf.FileRoundTrip
+
+/-- a log container as the format defines it -/
+def specContainer (method usz : Nat) (data : Bytes) : Bytes :=
+  leBytes 4 SIG ++ leBytes 2 16 ++ leBytes 2 1 ++ leBytes 4 (32 + data.length) ++ leBytes 4 10 ++
+  leBytes 2 method ++ leBytes 2 0 ++ leBytes 4 0 ++ leBytes 4 usz ++ leBytes 4 0 ++ data ++ zeros ((32 + data.length) % 4)
+
+/-- what the writer emits for one payload is the container of the format -/
+theorem C04_container (Z : Zlib) (cap level : Nat) (p : Bytes) (h : PayloadOK Z cap level p) :
+    encodeContainer Z cap level p = specContainer (if level = 0 then 0 else 2) p.length (stored Z level p) := by
+  have hlc := containerObj_ok Z level p h.len h.stored
+  obtain ⟨_, henc⟩ := lc_encode (memCfg cap) (containerObj Z level p) hlc
+  obtain ⟨f10, f8, f5, f0, f2, f4, f6, f7, f9⟩ := containerObj_facts Z level p
+  obtain ⟨h12, h1, h3, hr⟩ := lcPre_num (containerObj Z level p) hlc.size
+  show (Gen.LogContainer.encode (memCfg cap) (containerObj Z level p)).out = _
+  rw [henc]
+  simp only [L9, hdr4, T2, List.cons_append, List.nil_append, encItems, encItem, List.append_nil, h1, h3, h12,
+    hr 2 (by decide) (by decide) (by decide), hr 4 (by decide) (by decide) (by decide),
+    hr 5 (by decide) (by decide) (by decide), hr 6 (by decide) (by decide) (by decide),
+    hr 7 (by decide) (by decide) (by decide), hr 8 (by decide) (by decide) (by decide),
+    hr 9 (by decide) (by decide) (by decide), lcPre_buf, f10, f8, f5, f2, f4, f6, f7, f9, Nat.mul_one, specContainer,
+    List.append_assoc]
+  simp [List.take_length]
+
+/-- **the finished file**: statistics block, then containers of the format, nothing else -/
+theorem C04_file_layout (Z : Zlib) (cap : Nat) (cfg : WCfg) (hdr : Obj) (objs : List (Codec × Obj))
+    (hH : ItemsWF (storedHeader Z cap cfg hdr objs) Lfull)
+    (hP : ∀ p ∈ payloads cap cfg objs, PayloadOK Z cap cfg.level p) :
+    ∃ stats : Bytes, stats.length = 144 ∧
+      writeFile Z cap cfg hdr objs = stats ++
+        flattenB ((payloads cap cfg objs).map fun p =>
+          specContainer (if cfg.level = 0 then 0 else 2) p.length (stored Z cfg.level p)) := by
+  refine ⟨encItems (storedHeader Z cap cfg hdr objs) Lfull, ?_, ?_⟩
+  · rw [encItems_length _ _ hH]; simp [Lfull, Lstats, itemsSize, Item.size]
+  · rw [writeFile_eq, encodeStats_eq cap _ hH]
+    congr 2
+    apply List.map_congr_left
+    intro p hp
+    exact C04_container Z cap cfg.level p (hP p hp)
+
+/-- the payloads, concatenated, are the stream of object encodings in the order written -/
+theorem C04_payload_is_stream (cap : Nat) (cfg : WCfg) (objs : List (Codec × Obj)) :
+    flattenB (payloads cap cfg objs) = flattenB (objs.map fun p => (p.1.encode (memCfg cap) p.2).out) :=
+  flattenB_payloads cap cfg objs
+
+theorem chunk_ne_nil (cs fuel : Nat) (b : Bytes) : chunk cs fuel b ≠ [] := by
+  cases fuel with
+  | zero => simp [chunk]
+  | succ n => unfold chunk; split <;> simp
+
+/-- every payload but the last has exactly the container size -/
+theorem C04_full_containers (cs : Nat) : ∀ (fuel : Nat) (b : Bytes), ∀ c ∈ (chunk cs fuel b).dropLast, c.length = cs := by
+  intro fuel
+  induction fuel with
+  | zero => intro b c hc; simp [chunk] at hc
+  | succ n ih =>
+    intro b c hc
+    unfold chunk at hc
+    split at hc
+    · next h =>
+      rw [List.dropLast_cons_of_ne_nil (chunk_ne_nil cs n _)] at hc
+      simp only [List.mem_cons] at hc
+      rcases hc with rfl | hc
+      · simp [List.length_take]; omega
+      · exact ih _ c hc
+    · simp at hc
+
+/-- no payload is larger than the container size -/
+theorem C04_container_sizes (cs : Nat) (hcs : 0 < cs) : ∀ (fuel : Nat) (b : Bytes), b.length < fuel →
+    ∀ c ∈ chunk cs fuel b, c.length ≤ cs := by
+  intro fuel
+  induction fuel with
+  | zero => intro b h; omega
+  | succ n ih =>
+    intro b hb c hc
+    unfold chunk at hc
+    split at hc
+    · next h =>
+      simp only [List.mem_cons] at hc
+      rcases hc with rfl | hc
+      · simp [List.length_take]; omega
+      · exact ih (b.drop cs) (by simp [List.length_drop]; omega) c hc
+    · next h =>
+      simp only [List.mem_singleton] at hc
+      subst hc
+      simp only [not_and, Nat.not_lt] at h
+      by_cases h1 : cs ≤ c.length
+      · have := h h1; omega
+      · omega
+
+/-- what is stored is the payload (level 0) or inflates to exactly the payload, of the declared size (other levels) -/
+theorem C04_stored_inflates (Z : Zlib) (hZ : ZRT Z) (level : Nat) (p : Bytes) :
+    (level = 0 → stored Z level p = p) ∧ (level ≠ 0 → Z.inflate (stored Z level p) p.length = some p) := by
+  refine ⟨fun h => by simp [stored, h], fun h => ?_⟩
+  simp only [stored, h, if_false]
+  exact hZ level p
+
 end Blf.Props
